@@ -152,8 +152,13 @@ def run_check(prop, tier, seed, replay, t0):
         import sanitizers
         for name, fn in sanitizers.passes_for(prop):
             res = fn(prop, seed)
-            passes.append(res)
-            for v in res.get("violations", []):
+            passes.append({k: v for k, v in res.items() if k not in ("violations", "oracle_violations")}
+                          | {"violation_signatures": [v["signature"] for v in res.get("violations", [])],
+                             "oracle_violation_signatures": sorted(v["signature"] for v in res.get("oracle_violations", []))})
+            print(f"PASS {name}: status={res.get('status')} " + " ".join(f"{k}={res[k]}" for k in ("build_s", "run_s", "evaluations", "report_blocks", "schedules", "schedules_clean", "reason") if k in res))
+            for v in res.get("violations", []) + res.get("oracle_violations", []):
+                if any(w["signature"] == v["signature"] for w in rep["violations"]):
+                    continue
                 rep["violations"].append(v)
                 rep.setdefault("violation_counts", {})[v["signature"]] = v.get("count", 1)
     open_f = load_findings()
